@@ -49,6 +49,17 @@ type Tunnel struct {
 	LastSeen time.Time
 }
 
+// Close releases what is left of a tunnel once its client side has ended: the
+// connection to the remote desktop server and the outgoing transport
+func (t *Tunnel) Close() {
+	if t.rwc != nil {
+		t.rwc.Close()
+	}
+	if t.transportOut != nil {
+		t.transportOut.Close()
+	}
+}
+
 // Write puts the packet on the transport and updates the statistics for bytes sent
 func (t *Tunnel) Write(pkt []byte) {
 	n, _ := t.transportOut.WritePacket(pkt)
